@@ -561,6 +561,10 @@ pub fn run_random(rec: &mut Rec, seed: u64, run: u64, nops: usize) {
                 pre = json!({"quote": quote_json(&p, amt)});
                 dpre = p.w.digest();
                 let u = p.users[ui].clone();
+                // one router loan in six over a native vault comes with coins of the vault's asset attached to the message: they
+                // are the initiator's and must come back with the remaining proceeds
+                let att: u128 = match &p.asset { A::Native(_) if r.gen_range(0..6) == 0 => match r.gen_range(0..3) { 0 => 1, 1 => 100, _ => gen::amount(&mut r, amt.max(2)) }, _ => 0 };
+                let funds: Vec<Coin> = match &p.asset { A::Native(d) if att > 0 => vec![coin(att, d.as_str())], _ => vec![] };
                 rs = p.w.exec(
                     &u,
                     &p.router.clone(),
@@ -568,12 +572,12 @@ pub fn run_random(rec: &mut Rec, seed: u64, run: u64, nops: usize) {
                         assets: vec![p.asset.asset(amt)],
                         msgs: payload,
                     },
-                    &[],
+                    &funds,
                 );
                 dpost = p.w.digest();
                 name = "rloan";
                 actor = USERS[ui].into();
-                args = json!({"amt": s(amt), "script": script_json(&sub)});
+                args = json!({"amt": s(amt), "script": script_json(&sub), "att": s(att)});
                 out = json!({});
             }
         }
